@@ -3454,16 +3454,15 @@ impl Server {
         // Check all connections for closing state
         for id in self.connections.all_connection_ids() {
             let should_remove = self.connections.with_connection(id, |conn| {
-                // replies still waiting for a slow reader are delivered before the close
-                conn.is_closing() && !conn.has_pending_writes()
+                // replies still waiting for a slow reader are delivered before the close -
+                // unless the peer itself is gone, then nothing can be delivered any more
+                conn.is_closing() && (!conn.has_pending_writes() || conn.peer_closed())
             }).unwrap_or(false);
             
             if should_remove {
-                // Check if connection has active subscriptions before cleaning up
-                if self.pubsub.is_subscribed(id) {
-                    // Skip cleanup for connections with active subscriptions
-                    continue;
-                }
+                // A closing connection is removed whether or not it still has subscriptions: they
+                // are dropped below (unsubscribe_all). Keeping it meant that a subscriber whose
+                // peer had gone away stayed subscribed forever and was counted by every PUBLISH.
                 to_remove.push(id);
             }
         }
